@@ -12,6 +12,7 @@ import threading
 import numpy as np
 
 _tl = threading.local()
+_BOX = [None]  # (Rmin, Rmax, Zmin, Zmax) of the psi data of the equilibrium being gridded
 
 
 def _wall_distance(closed, R, Z):
@@ -32,6 +33,17 @@ def install_all(count, violate):
     PsiContour = eqm.PsiContour
     Equilibrium = eqm.Equilibrium
     EquilibriumRegion = eqm.EquilibriumRegion
+
+    def guarded(name, fn, *a, **k):
+        """A monitor never changes what the monitored code does: an exception raised by
+        the monitor's own code is counted ('<contract>#monitor_error' -> inconclusive),
+        never propagated."""
+        try:
+            return fn(*a, **k)
+        except Exception as e:  # noqa: BLE001
+            count(name + "#monitor_error")
+            _tl.__dict__.setdefault("monitor_errors", []).append((name, repr(e)[:200]))
+            return None
 
     # ---- C01: refinePoint puts the point on its flux surface --------------------------------
     for mname in ("refinePointNewton", "refinePointLinesearch", "refinePointIntegrate"):
@@ -54,6 +66,10 @@ def install_all(count, violate):
     def refinePoint(self, p, tangent, *, psi, width=None, atol=None, methods=None, **kwargs):
         _tl.last_method = None
         r = orig_refinePoint(self, p, tangent, psi=psi, width=width, atol=atol, methods=methods, **kwargs)
+        guarded("C01.refinePoint", _check_rp, self, r, psi, atol)
+        return r
+
+    def _check_rp(self, r, psi, atol):
         if self.psival is not None and getattr(_tl, "last_method", None) is not None:
             at = atol if atol is not None else self.user_options.refine_atol
             resid = abs(float(psi(r.R, r.Z)) - self.psival)
@@ -68,9 +84,23 @@ def install_all(count, violate):
                 count("C01.refinePoint")
                 if not (resid <= tol):
                     violate("C01.refinePoint", {"resid": resid, "tol": tol, "method": _tl.last_method, "psival": self.psival, "point": [r.R, r.Z]})
-        return r
 
     PsiContour.refinePoint = refinePoint
+
+    # the psi data box of the equilibrium being gridded (set before the workers are forked)
+    orig_mesh_init = mesh.Mesh.__init__
+
+    @functools.wraps(orig_mesh_init)
+    def mesh_init(self, equilibrium, settings, *a, **k):
+        def setbox():
+            from .gridutil import psi_box
+
+            _BOX[0] = psi_box(equilibrium)
+
+        guarded("mesh_init", setbox)
+        return orig_mesh_init(self, equilibrium, settings, *a, **k)
+
+    mesh.Mesh.__init__ = mesh_init
 
     # ---- C01/C04: followPerpendicular returns one point per requested psi, in order ----------
     orig_fp = mesh.followPerpendicular
@@ -78,6 +108,10 @@ def install_all(count, violate):
     @functools.wraps(orig_fp)
     def followPerpendicular(i, p0, psi0, *, f_R, f_Z, psivals, rtol=2.0e-8, atol=1.0e-8, maxits=1000, recover=False, **kwargs):
         res = orig_fp(i, p0, psi0, f_R=f_R, f_Z=f_Z, psivals=psivals, rtol=rtol, atol=atol, maxits=maxits, recover=recover, **kwargs)
+        guarded("C04.followPerpendicular", _check_fp, i, recover, res, psivals, kwargs)
+        return res
+
+    def _check_fp(i, recover, res, psivals, kwargs):
         if i is not None and not recover:  # top-level calls only (recursive calls pass i=None)
             count("C04.followPerpendicular")
             pv = np.asarray(psivals, float)
@@ -85,13 +119,21 @@ def install_all(count, violate):
                 violate("C04.followPerpendicular", {"what": "number of points", "got": len(res), "want": len(pv)})
             else:
                 psi = kwargs.get("psi")
-                if psi is not None and len(pv) > 1:
+                b = _BOX[0]
+                if b is not None and any(not (b[0] <= q.R <= b[1] and b[2] <= q.Z <= b[3]) for q in res):
+                    # beyond the psi data the interpolated psi is clamped: nothing to compare with
+                    count("C04.followPerpendicular(points outside the psi data box: not compared)")
+                elif psi is not None and len(pv) > 1:
                     got = np.array([float(psi(q.R, q.Z)) for q in res])
-                    rng = max(abs(pv[-1] - pv[0]), 1e-300)
+                    # each returned point is unambiguously the one of its own psival: the
+                    # error is a small fraction of the distance to the neighbouring values
+                    # (the points are refined onto their surfaces afterwards, so only the
+                    # association point <-> psival matters here)
+                    dpv = np.abs(np.diff(pv))
+                    rng = float(dpv[dpv > 0].min()) if np.any(dpv > 0) else float("inf")
                     err = float(np.abs(got - pv).max()) / rng
-                    if not (err <= 1e-5):
+                    if not (err <= 0.25):
                         violate("C04.followPerpendicular", {"what": "psi at the returned points vs requested psivals (order preserved)", "err_rel": err, "psivals": pv.tolist()[:6], "got": got.tolist()[:6]})
-        return res
 
     mesh.followPerpendicular = followPerpendicular
 
@@ -103,11 +145,14 @@ def install_all(count, violate):
         fresh = self._distance is None
         d = orig_gd(self, psi=psi)
         if fresh:
-            count("C05.get_distance")
-            a = np.asarray(d, float)
-            if not np.all(np.diff(a) > 0):
-                violate("C05.get_distance", {"what": "distance along a contour not strictly increasing", "n": len(a)})
+            guarded("C05.get_distance", _check_gd, d)
         return d
+
+    def _check_gd(d):
+        count("C05.get_distance")
+        a = np.asarray(d, float)
+        if not np.all(np.diff(a) > 0):
+            violate("C05.get_distance", {"what": "distance along a contour not strictly increasing", "n": len(a)})
 
     PsiContour.get_distance = get_distance
 
@@ -117,27 +162,36 @@ def install_all(count, violate):
     @functools.wraps(orig_mc)
     def makeConnection(self, lowerRegion, lowerSegment, upperRegion, upperSegment):
         r = orig_mc(self, lowerRegion, lowerSegment, upperRegion, upperSegment)
+        guarded("C08.makeConnection", _check_mc, self, lowerRegion, lowerSegment, upperRegion, upperSegment)
+        return r
+
+    def _check_mc(self, lowerRegion, lowerSegment, upperRegion, upperSegment):
         count("C08.makeConnection")
         lo, up = self.regions[lowerRegion], self.regions[upperRegion]
         if lo.connections[lowerSegment]["upper"] != (upperRegion, upperSegment) or up.connections[upperSegment]["lower"] != (lowerRegion, lowerSegment):
             violate("C08.makeConnection", {"what": "connection not symmetric", "args": [lowerRegion, lowerSegment, upperRegion, upperSegment]})
         if lo.nx[lowerSegment] != up.nx[upperSegment]:
             violate("C08.makeConnection", {"what": "joined edges of unequal size", "args": [lowerRegion, lowerSegment, upperRegion, upperSegment]})
-        return r
 
     Equilibrium.makeConnection = makeConnection
 
     # ---- C09: radial spacing function on the real calls ---------------------------------------------
     orig_sm = Equilibrium.getSmoothMonotonicGridFunc
-    calls = []
-    _tl.c09_calls = calls
+    import weakref
+
+    calls_by_eq = weakref.WeakKeyDictionary()  # one grid = one Equilibrium object
 
     @functools.wraps(orig_sm)
     def getSmoothMonotonicGridFunc(self, n, lower, upper, *, grad_lower=None, grad_upper=None):
         f = orig_sm(self, n, lower, upper, grad_lower=grad_lower, grad_upper=grad_upper)
+        guarded("C09.getSmoothMonotonicGridFunc", _check_sm, self, f, n, lower, upper, grad_lower, grad_upper)
+        return f
+
+    def _check_sm(self, f, n, lower, upper, grad_lower, grad_upper):
         count("C09.getSmoothMonotonicGridFunc")
+        calls = calls_by_eq.setdefault(self, [])
         R = max(abs(upper - lower), 1e-300)
-        v = np.array([float(f(x)) for x in np.linspace(0, n, 2 * n + 1)])
+        v = np.array([float(f(x)) for x in np.linspace(0.0, float(n), 2 * int(round(float(n))) + 1)])
         if abs(v[0] - lower) > 1e-9 * R or abs(v[-1] - upper) > 1e-9 * R:
             violate("C09.getSmoothMonotonicGridFunc", {"what": "end values", "f0": v[0], "fn": v[-1], "lower": lower, "upper": upper})
         h = 1e-4
@@ -157,7 +211,6 @@ def install_all(count, violate):
                     if abs(ga - gb) > 1e-12 * max(abs(ga), abs(gb)):
                         violate("C09.equal_gradient_either_side_of_a_separatrix", {"boundary": va, "gradients": [ga, gb]})
         calls.append({"n": n, "lower": lower, "upper": upper, "grad_lower": grad_lower, "grad_upper": grad_upper})
-        return f
 
     Equilibrium.getSmoothMonotonicGridFunc = getSmoothMonotonicGridFunc
 
@@ -184,8 +237,12 @@ def install_all(count, violate):
 
     @functools.wraps(orig_fs)
     def getSfuncFixedSpacing(self, npoints, distance, *, method=None, spacing_lower=None, spacing_upper=None):
-        f = orig_fs(self, npoints, distance, method=method, spacing_lower=spacing_lower, spacing_upper=spacing_upper)
-        check_sfunc("C10.getSfuncFixedSpacing", self, f, npoints, total=distance)
+        _tl.in_grid_sfunc = getattr(_tl, "in_grid_sfunc", 0) + 1
+        try:
+            f = orig_fs(self, npoints, distance, method=method, spacing_lower=spacing_lower, spacing_upper=spacing_upper)
+        finally:
+            _tl.in_grid_sfunc -= 1
+        guarded("C10.getSfuncFixedSpacing", check_sfunc, "C10.getSfuncFixedSpacing", self, f, npoints, total=distance)
         return f
 
     EquilibriumRegion.getSfuncFixedSpacing = getSfuncFixedSpacing
@@ -194,24 +251,35 @@ def install_all(count, violate):
 
     @functools.wraps(orig_cs)
     def combineSfuncs(self, contour, sfunc_orthogonal, *a, **k):
-        f = orig_cs(self, contour, sfunc_orthogonal, *a, **k)
-        check_sfunc("C10.combineSfuncs", self, f, 2 * self.ny_noguards + 1)
+        _tl.in_grid_sfunc = getattr(_tl, "in_grid_sfunc", 0) + 1
+        try:
+            f = orig_cs(self, contour, sfunc_orthogonal, *a, **k)
+        finally:
+            _tl.in_grid_sfunc -= 1
+        guarded("C10.combineSfuncs", check_sfunc, "C10.combineSfuncs", self, f, 2 * self.ny_noguards + 1)
         return f
 
     EquilibriumRegion.combineSfuncs = combineSfuncs
 
     # sqrt spacing: every region of one grid is built with the same normalisation count
     orig_sq = EquilibriumRegion.getSqrtPoloidalDistanceFunc
-    nnorms = set()
+    nnorms_by_eq = weakref.WeakKeyDictionary()  # one grid = one Equilibrium object
 
     @functools.wraps(orig_sq)
     def getSqrtPoloidalDistanceFunc(self, length, N, N_norm, **k):
         f = orig_sq(self, length, N, N_norm, **k)
+        # only the calls the grid generator itself makes (a direct call with an arbitrary
+        # N_norm, as the unit tests make, is not "a region of one grid")
+        if getattr(_tl, "in_grid_sfunc", 0) > 0:
+            guarded("C10.N_norm_same_for_all_regions", _check_nn, self, N_norm)
+        return f
+
+    def _check_nn(self, N_norm):
         count("C10.N_norm_same_for_all_regions")
+        nnorms = nnorms_by_eq.setdefault(self.equilibrium, set())
         nnorms.add(float(N_norm))
         if len(nnorms) > 1:
             violate("C10.N_norm_same_for_all_regions", {"N_norm_values": sorted(nnorms), "region": self.name})
-        return f
 
     EquilibriumRegion.getSqrtPoloidalDistanceFunc = getSqrtPoloidalDistanceFunc
 
@@ -223,6 +291,10 @@ def install_all(count, violate):
         p_start = self[self.startInd]
         p_end = self[self.endInd]
         new = orig_rg(self, npoints, psi=psi, **k)
+        guarded("C10.getRegridded_keeps_end_points", _check_rg, new, p_start, p_end, npoints)
+        return new
+
+    def _check_rg(new, p_start, p_end, npoints):
         count("C10.getRegridded_keeps_end_points")
         a, b = new[new.startInd], new[new.endInd]
         d = max(np.hypot(a.R - p_start.R, a.Z - p_start.Z), np.hypot(b.R - p_end.R, b.Z - p_end.Z))
@@ -230,7 +302,6 @@ def install_all(count, violate):
             violate("C10.getRegridded_keeps_end_points", {"moved_by": float(d)})
         if new.endInd - new.startInd != npoints - 1:
             violate("C10.getRegridded_keeps_end_points", {"what": "number of points between startInd and endInd", "got": new.endInd - new.startInd + 1, "want": npoints})
-        return new
 
     PsiContour.getRegridded = getRegridded
 
@@ -240,6 +311,10 @@ def install_all(count, violate):
     @functools.wraps(orig_fi)
     def _find_intersection(i_contour, contour, *, equilibrium, lower_wall, upper_wall, max_extend, psi=None, **kwargs):
         res = orig_fi(i_contour, contour, equilibrium=equilibrium, lower_wall=lower_wall, upper_wall=upper_wall, max_extend=max_extend, psi=psi, **kwargs)
+        guarded("C11._find_intersection", _check_fi, res, psi, equilibrium)
+        return res
+
+    def _check_fi(res, psi, equilibrium):
         c, li, lp, ui, up = res
         psi_ = psi if psi is not None else equilibrium.psi
         for which, pt in (("lower", lp), ("upper", up)):
@@ -251,7 +326,6 @@ def install_all(count, violate):
             tol = 1.5 * c.user_options.refine_atol * max(1.0, abs(c.psival))
             if dw > 1e-4 or dpsi > tol:
                 violate("C11._find_intersection", {"which": which, "distance_to_wall": dw, "psi_error": dpsi, "tol": tol})
-        return res
 
     mesh._find_intersection = _find_intersection
 
@@ -260,6 +334,10 @@ def install_all(count, violate):
     @functools.wraps(orig_ap)
     def addPointAtWallToContours(self):
         r = orig_ap(self)
+        guarded("C11.addPointAtWallToContours", _check_ap, self)
+        return r
+
+    def _check_ap(self):
         eq = self.meshParent.equilibrium
         for c in self.contours:
             for wall_end, ind in ((self.connections["lower"] is None, c.startInd), (self.connections["upper"] is None, c.endInd)):
@@ -270,7 +348,6 @@ def install_all(count, violate):
                 dw = _wall_distance(eq.closed_wallarray, p.R, p.Z)
                 if dw > 1e-4:
                     violate("C11.addPointAtWallToContours", {"what": "contour[startInd/endInd] is not the wall point", "distance_to_wall": dw, "region": self.name, "index": ind, "len": len(c)})
-        return r
 
     mesh.MeshRegion.addPointAtWallToContours = addPointAtWallToContours
 
@@ -283,10 +360,13 @@ def install_all(count, violate):
     def pm_call(self, function, args_list, **kwargs):
         args_list = tuple(args_list)
         res = orig_call(self, function, args_list, **kwargs)
+        guarded("C13.ParallelMap_one_result_per_task", _check_pm, res, args_list, function)
+        return res
+
+    def _check_pm(res, args_list, function):
         count("C13.ParallelMap_one_result_per_task")
         if len(res) != len(args_list) or any(x is None for x in res):
             violate("C13.ParallelMap_one_result_per_task", {"n_tasks": len(args_list), "n_results": len(res), "function": getattr(function, "__name__", "?")})
-        return res
 
     pmod.ParallelMap.__call__ = pm_call
 
